@@ -296,6 +296,7 @@ type Runner struct {
 	Rw *RewardShadow
 	NeedPending bool // compute the module's pending staking rewards per validator before every step
 	Ghost      bool // execute every step first on a discarded branch (C19 replays)
+	GhostNext  []Step // the steps that follow the current one in the history being replayed (ghost look-ahead)
 	PoolShort  bool // set by the C12 machinery when the rewards pool cannot pay all claims (recorded finding)
 }
 
@@ -319,6 +320,15 @@ func NewRunner(w *World, cfg Config, rep *Report) *Runner {
 // SlashOn runs the module's slash callback on a branch of ctx and records pre/post/return value.
 // TopUpPool makes the rewards pool solvent on a branch (used to look past the recorded pool-short
 // findings: what else would fail in this state if the pool could pay?).
+// valExists: does x/staking still know validator i of the world (it may have been removed)?
+func (r *Runner) valExists(i int) bool {
+	if i < 0 || i >= len(r.W.Vals) || r.Cur == nil {
+		return false
+	}
+	v := r.Cur.Vals[r.W.Vals[i].Oper.String()]
+	return v != nil && v.Exists
+}
+
 func (r *Runner) TopUpPool(ctx sdk.Context) {
 	for _, c := range r.Cur.Supply {
 		coins := sdk.NewCoins(sdk.NewCoin(c.Denom, c.Amount))
@@ -608,6 +618,27 @@ func (r *Runner) ghost(s Step) {
 			w.EndBlockOn(gctx)
 			w.EndBlockOn(gctx.WithBlockTime(gctx.BlockTime().Add(time.Hour)).WithBlockHeight(gctx.BlockHeight() + 1))
 		}
+	}
+	// look-ahead: the transactions that FOLLOW this one in the same block, simulated before it on another
+	// discarded branch (a mempool is simulated against the current state in any order)
+	if s.K != "block" && len(r.GhostNext) > 0 {
+		actx, _ := w.Ctx.CacheContext()
+		actx = actx.WithEventManager(sdk.NewEventManager())
+		n := 0
+		for _, ns := range r.GhostNext {
+			if ns.K == "block" || n >= 3 {
+				break
+			}
+			switch ns.K {
+			case "donate", "legacy_create", "legacy_update", "legacy_delete", "create_val", "oper_exit":
+				continue
+			}
+			if msg := r.buildMsg(ns); msg != nil {
+				w.RunMsgOn(actx, msg, true)
+				n++
+			}
+		}
+		r.Rep.Count("C19.ghost-lookahead-executions", n)
 	}
 	r.Rep.Count("C19.ghost-executions", 1)
 }
